@@ -199,9 +199,11 @@ class Model:
         class NotAnAgentException(Exception):
             pass
 
-        agent = self.agent_factories[agent_type](self.next_agent_id, self, agent_properties)
-
+        # the id is taken before the factory runs: an agent that creates another agent in its constructor must not hand its own id out again
+        agent_id = self.next_agent_id
         self.next_agent_id += 1
+
+        agent = self.agent_factories[agent_type](agent_id, self, agent_properties)
 
         if not isinstance(agent,Agent):
             raise NotAnAgentException("{} is not an instance of BPTK_Py.Agent. Please only use subclasses of Agent".format(agent))
